@@ -270,26 +270,13 @@ def campaign_sort(ck: Check, n_random: int, exhaustive_nodes: int) -> None:
         dup["members"] = rng.shuffle(dup["members"])[: rng.below(3)]
         g = rng.shuffle(g + [dup])
         cases.append((g, None, "stub"))
-    # exhaustive: every labelled graph on <= N nodes with edge kinds {none, member, base}, self loops included;
-    # relabelling covers every input order
-    for n in range(1, exhaustive_nodes + 1):
-        pairs = [(i, j) for i in range(n) for j in range(n)]
-        if n <= 3:
-            space = itertools.product((0, 1, 2), repeat=len(pairs))
-        else:
-            off = [(i, j) for i, j in pairs if i != j]
-            space = (tuple(0 if (i == j) else kinds[off.index((i, j))] for i, j in pairs) for kinds in itertools.product((0, 1, 2), repeat=len(off)))
-        for kinds in space:
-            g = [node(i) for i in range(n)]
-            for (i, j), kd in zip(pairs, kinds):
-                if kd == 1:
-                    g[i]["members"].append(j)
-                elif kd == 2:
-                    g[i]["bases"].append(j)
-            cases.append((g, None, "stub"))
-    reqs = [f"sort.data {default_rc() if rc is None else rc} {sx_models(g)}" for g, rc, _ in cases]
-    replies = ck.driver.run(reqs)
-    for (g, rc, kind), rep in zip(cases, replies):
+    def process(batch) -> None:
+        reqs = [f"sort.data {default_rc() if rc is None else rc} {sx_models(g)}" for g, rc, _ in batch]
+        replies = ck.driver.run(reqs)
+        for (g, rc, kind), rep in zip(batch, replies):
+            check_one(g, rc, kind, rep)
+
+    def check_one(g, rc, kind, rep) -> None:
         camp.evaluations += 1
         model = parse_sort_reply(rep)
         ms = real_models(g) if kind == "real" else stub_models(g)
@@ -320,7 +307,34 @@ def campaign_sort(ck: Check, n_random: int, exhaustive_nodes: int) -> None:
                     {"graph": g, "recursion_count": rc, "objects": kind, "target": "sort_data_models"}, why)
         elif len(camp.samples) < 3 and impl[0] == "ok" and impl[1] and len(g) >= 4:
             camp.samples.append({"graph": g, "result": impl})
+
+    process(cases)
+    for batch in exhaustive_batches(exhaustive_nodes):
+        process(batch)
+        if len(ck.disagreements) > 50 or len(ck.failures) > 50:
+            break
     camp.wall_s = time.time() - t0
+
+
+def exhaustive_batches(max_nodes: int, size: int = 20000):
+    """every labelled graph on <= N nodes with edge kinds {none, member, base}; self loops included for
+    N <= 3, excluded for N = 4 (3^16 graphs otherwise). Relabelling covers every input order."""
+    batch = []
+    for n in range(1, max_nodes + 1):
+        pairs = [(i, j) for i in range(n) for j in range(n) if n <= 3 or i != j]
+        for kinds in itertools.product((0, 1, 2), repeat=len(pairs)):
+            g = [node(i) for i in range(n)]
+            for (i, j), kd in zip(pairs, kinds):
+                if kd == 1:
+                    g[i]["members"].append(j)
+                elif kd == 2:
+                    g[i]["bases"].append(j)
+            batch.append((g, None, "stub"))
+            if len(batch) >= size:
+                yield batch
+                batch = []
+    if batch:
+        yield batch
 
 
 def mechanism_of(why: str) -> str:
@@ -352,46 +366,57 @@ CORPUS = [
 def campaign_bubble(ck: Check, max_nodes: int) -> None:
     camp = ck.campaign("bubble_converges, exhaustively: every inheritance digraph on <= %d nodes (model passes; real error kind)" % max_nodes)
     t0 = time.time()
-    cases = []
-    for n in range(1, max_nodes + 1):
-        off = [(i, j) for i in range(n) for j in range(n) if i != j]
-        for bits in range(1 << len(off)):
-            g = [node(i, (), (EXT,)) for i in range(n)]  # the dangling member keeps every model in the bubble batch
-            for k, (i, j) in enumerate(off):
-                if bits >> k & 1:
-                    g[i]["bases"].append(j)
-            cases.append(g)
-    reqs = [f"sort.bubble {len(g) + 1} {sx_models(g)}" for g in cases]
-    replies = ck.driver.run(reqs)
     maxpass: dict[int, int] = {}
-    for g, rep in zip(cases, replies):
-        camp.evaluations += 1
-        cyc = base_cycle(g)
-        n = len(g)
-        camp.hit(f"n={n}")
-        camp.hit("cyclic" if cyc else "acyclic")
-        converged = rep.startswith("ok ")
-        if converged:
-            passes = int(rep.split(" ")[1])
-            maxpass[n] = max(maxpass.get(n, 0), passes)
-        if any(x["bases"] for x in g):
-            camp.distinct.add(graph_key(g))
-        # the theorem, checked on the model: acyclic => fix-point within n passes (+1 confirming)
-        if not cyc and not converged:
-            ck.disagree(camp, {"graph": g}, "model bubble does not converge on an acyclic graph", "bubble_converges")
-        if cyc and converged:
-            camp.hit("cyclic-but-converges")
-        # the real code: the new `else: raise` is taken exactly when the model's bubble runs out
-        impl = run_real_sort(stub_models(g))
-        want = ("err", "unresolved") if converged else ("err", "circularBases")
-        if impl != want:
-            if impl[0] == "hang":
-                ck.fail({"oracle": "sorter_result", "mechanism": "hang", "base_cycle": cyc, "self_base": False}, {"graph": g, "target": "sort_data_models"}, "sort_data_models does not terminate")
-            else:
-                ck.disagree(camp, {"graph": g}, want, impl)
-        if not cyc and impl == ("err", "circularBases"):
-            ck.fail({"oracle": "sorter_result", "mechanism": "acyclic_reported_circular", "base_cycle": False, "self_base": False},
-                    {"graph": g, "target": "sort_data_models"}, "acyclic inheritance is reported as circular base classes")
+
+    def batches(size=20000):
+        batch = []
+        for n in range(1, max_nodes + 1):
+            off = [(i, j) for i in range(n) for j in range(n) if i != j]
+            for bits in range(1 << len(off)):
+                g = [node(i, (), (EXT,)) for i in range(n)]  # the dangling member keeps every model in the bubble batch
+                for k, (i, j) in enumerate(off):
+                    if bits >> k & 1:
+                        g[i]["bases"].append(j)
+                batch.append(g)
+                if len(batch) >= size:
+                    yield batch
+                    batch = []
+        if batch:
+            yield batch
+
+    for cases in batches():
+        reqs = [f"sort.bubble {len(g) + 1} {sx_models(g)}" for g in cases]
+        replies = ck.driver.run(reqs)
+        for g, rep in zip(cases, replies):
+            camp.evaluations += 1
+            cyc = base_cycle(g)
+            n = len(g)
+            camp.hit(f"n={n}")
+            camp.hit("cyclic" if cyc else "acyclic")
+            converged = rep.startswith("ok ")
+            if converged:
+                passes = int(rep.split(" ")[1])
+                maxpass[n] = max(maxpass.get(n, 0), passes)
+            if any(x["bases"] for x in g):
+                camp.distinct.add(graph_key(g))
+            # the theorem, checked on the model: acyclic => fix-point within n passes (+1 confirming)
+            if not cyc and not converged:
+                ck.disagree(camp, {"graph": g}, "model bubble does not converge on an acyclic graph", "bubble_converges")
+            if cyc and converged:
+                camp.hit("cyclic-but-converges")
+            # the real code: the new `else: raise` is taken exactly when the model's bubble runs out
+            impl = run_real_sort(stub_models(g))
+            want = ("err", "unresolved") if converged else ("err", "circularBases")
+            if impl != want:
+                if impl[0] == "hang":
+                    ck.fail({"oracle": "sorter_result", "mechanism": "hang", "base_cycle": cyc, "self_base": False}, {"graph": g, "target": "sort_data_models"}, "sort_data_models does not terminate")
+                else:
+                    ck.disagree(camp, {"graph": g}, want, impl)
+            if not cyc and impl == ("err", "circularBases"):
+                ck.fail({"oracle": "sorter_result", "mechanism": "acyclic_reported_circular", "base_cycle": False, "self_base": False},
+                        {"graph": g, "target": "sort_data_models"}, "acyclic inheritance is reported as circular base classes")
+        if len(ck.disagreements) > 50 or len(ck.failures) > 50:
+            break
     ck.notes["bubble_max_passes_by_n (confirming pass included)"] = maxpass
     camp.wall_s = time.time() - t0
 
@@ -747,8 +772,8 @@ def run(ck: Check) -> None:
     campaign_sort(ck, 500 if quick else 5000, 3 if quick else 4)
     campaign_bubble(ck, 4 if quick else 5)
     campaign_sort_models(ck, 600 if quick else 6000)
-    campaign_e2e(ck, 120 if quick else 1500)
-    campaign_e2e_modular(ck, 40 if quick else 400)
+    campaign_e2e(ck, 240 if quick else 2500)
+    campaign_e2e_modular(ck, 80 if quick else 600)
     ck.search_hooks.append(search_e2e)
     known_findings(ck)
 
